@@ -105,6 +105,58 @@ def judge(ctx, mode, extra, obs, acc):
     return found
 
 
+class Rerun(core.Layer):
+    """the same command twice into the same -o path (real CLI): every file of the second run still has at most one record per query"""
+    name = 'rerun'
+    optional = False
+
+    def __init__(self, ws):
+        self.worlds = ws
+        self.items = [(wi, m) for wi in range(len(ws)) for m in ('all', 'separate', 'joined')]
+        self.bounds = dict(worlds=len(ws), modes=['all', 'separate', 'joined'], runs_per_item=2)
+        self.rule = '%d worlds x 3 modes, each run twice into the same output path' % len(ws)
+
+    def nblocks(self):
+        return len(self.items)
+
+    def run_block(self, b, acc):
+        wi, mode = self.items[b]
+        acc.seq += 1
+        found = self.run_item(self.worlds[wi], mode, acc)
+        case = dict(world=e2e.worlds.jsonable(self.worlds[wi]), mode=mode)
+        for f in found:
+            acc.viol(f[0], case, f[1], f[2], f[3])
+        acc.sample(lambda: dict(world=wi, mode=mode))
+
+    def run_item(self, w, mode, acc):
+        import os
+        from mc import driver
+        d = os.path.join(core.scratch_dir(), 'rerun-%d' % os.getpid())
+        os.makedirs(d, exist_ok=True)
+        found = []
+        rc, err, files = driver.run_cli(w, mode, cpus=2, directory=d)
+        if rc == 0:
+            rc, err, files = driver.run_cli(w, mode, cpus=2, directory=d, keep_outputs=True)
+        if rc != 0:
+            return [('run-aborted', err[-300:], 'cli', {})]
+        for fk, txt in sorted(files.items()):
+            if mode == 'joined' and fk != 'main':
+                continue
+            ids = [r['QryContigID'] for r in xmaptext.parse(txt)[2]]
+            if len(set(ids)) != len(ids):
+                found.append(('more-than-one-record-per-query', 'mode=%s file=%s after the second run: ids %s' % (mode, fk, ids), 'output', {'rerun': True}))
+        if acc is not None:
+            acc.evals += 1
+            acc.transitions += 2
+            acc.state(('rerun', mode, tuple(sorted((k, len(xmaptext.parse(t)[2])) for k, t in files.items()))))
+            acc.nontriv(('rerun', mode, len(w['queries'])))
+        return found
+
+    def replay(self, case):
+        w = case['world']
+        return self.run_item(dict(refs=[tuple(m) for m in w['refs']], queries=[tuple(m) for m in w['queries']]), case['mode'], None)
+
+
 def layers(tier, seed):
     n = 24 if tier == 'quick' else 300
     refs, pool, sets = e2e.query_sets(n, 'c05')
@@ -123,4 +175,5 @@ def layers(tier, seed):
     extras = tuple(('-p', str(p)) for p in (1, 2, 3, 5))
     return [e2e.WorldLayer('worlds', ws, judge, extras=extras, extensions=[sink.Candidates, sink.Seeds],
                            bounds=dict(worlds=len(ws), peaksCount=[1, 2, 3, 5], modes=list(e2e.MODES), queries_per_world=[3, 5], references=[1, 3]),
-                           rule='%d multi-query worlds x 4 peaksCount x 4 modes' % len(ws), cli_every=0)]
+                           rule='%d multi-query worlds x 4 peaksCount x 4 modes' % len(ws), cli_every=0),
+            Rerun(ws[:2] if tier == 'quick' else ws[:8])]
